@@ -62,6 +62,9 @@ func verifExpire(ctx context.Context) bool
 
 func verifMutexHeld(l sync.Locker) bool
 
+// verifWaitGroupCount: the wait-group's counter (natively: 0 or "some").
+func verifWaitGroupCount(wg *sync.WaitGroup) int
+
 // verifSameDuration: exact equality in the engine; natively allows for the time already elapsed.
 func verifSameDuration(got, want time.Duration) bool
 
